@@ -453,6 +453,8 @@ def zbool(x):
 # ----------------------------------------------------------------------------------------------
 
 _DIV_HOOK = [None]     # engine: called with (den Sym) on division by a non-constant
+FORMAT_HOOK = [None]   # harness: (sym, spec) -> str token
+ROUND_HOOK = [None]    # harness: (sym, ndigits) -> object
 
 
 _FACTORS = {}      # pkey -> fid
@@ -820,6 +822,13 @@ class Sym:
 
     # -- comparisons ------------------------------------------------------------------------------
     def _cmp(self, o, op):
+        if isinstance(o, float) and (o != o or o in (math.inf, -math.inf)):
+            # a real number against nan / +-inf
+            if o != o:
+                return op == '!='
+            if o > 0:
+                return op in ('<', '<=', '!=')
+            return op in ('>', '>=', '!=')
         o = self._coerce(o)
         if o is None:
             return NotImplemented
@@ -874,6 +883,9 @@ class Sym:
     def __round__(self, nd=None):
         c = self.const_value()
         if c is None:
+            h = ROUND_HOOK[0]
+            if h is not None:
+                return h(self, nd)
             raise SymbolicLeak('round() of a symbolic value')
         return round(Fraction(c), nd) if nd is not None else round(Fraction(c))
 
@@ -883,6 +895,9 @@ class Sym:
         return 'Sym((%s)/(%s))' % (pstr(self.n), pstr(self.d))
 
     def __format__(self, spec):
+        h = FORMAT_HOOK[0]
+        if h is not None:
+            return h(self, spec)
         c = self.const_value()
         if c is not None:
             return format(float(c), spec)
